@@ -1307,6 +1307,9 @@ class Arm(Robot):
             jacobian
         """
         theta = self._helper_ensure_theta_not_none(theta)
+        ad_home_inv = fmr.Adjoint(self._end_effector_home.inv().gTM())
+        for i in range(0, self.num_dof):
+            self.screw_list_body[:, i] = ad_home_inv @ self.screw_list[:, i]
         return fmr.JacobianBody(self.screw_list_body, theta)
 
     def jacobianLink(self, i : int,  theta : 'np.ndarray[float]' = None) -> 'np.ndarray[float]':
